@@ -15,7 +15,7 @@ from . import common as C
 from .obs import exc_kind
 
 HEADER = (
-    "From A816 Require Import Oracle.E2Eo.\n"
+    "From A816 Require Import Oracle.E2Eo.\nFrom A816 Require Model.TableFile.\n"
     "Require Import Run.GenBuses Run.GenOpcodes Run.GenLexicon.\n"
     "Definition L : live := {| lv_low := Run.GenBuses.low_rom_bus; lv_high := Run.GenBuses.high_rom_bus; "
     "lv_busmap := Run.GenBuses.bus_mapping; lv_optable := Run.GenOpcodes.opcode_table; "
@@ -39,6 +39,8 @@ def _files_on_disk(case) -> dict:
     for name, content in (case.get("files") or {}).items():
         if isinstance(content, dict) and "tbl" in content:
             out[name] = "".join(f"{bytes(code).hex().upper()}={text}\n" for text, code in content["tbl"])
+        elif isinstance(content, dict) and "tbl_text" in content:      # a .tbl file given as its text (noise lines included)
+            out[name] = content["tbl_text"]
         else:
             out[name] = content if isinstance(content, str) else bytes(content)
     return out
@@ -272,7 +274,9 @@ def front_term(o) -> str:
     # very large flat images (a block high up in a 4 MiB ROM) are not shipped: only the status is compared then
     f = "None" if o.get("file") is None or len(o["file"]) > MAX_FILE else f"(Some {C.cbytes(bytes(o['file']))})"
     if "ret" in o:
-        return f"(FReturn {C.z(o['ret'])} {C.cbool(o['announced'])} {f})"
+        # a file API that falls off its end returns None, which sys.exit() turns into status 0: a zero status
+        ret = o["ret"] if isinstance(o["ret"], int) else 0
+        return f"(FReturn {C.z(ret)} {C.cbool(o['announced'])} {f})"
     if "raise" in o:
         return f"(FRaise {o['raise']})"
     return f"(FExit {C.z(o['exit'])} {C.cbool(o['announced'])} {f})"
@@ -283,6 +287,10 @@ def files_term(case) -> str:
     for name, content in (case.get("files") or {}).items():
         if isinstance(content, dict) and "tbl" in content:
             tbls.append(C.cpair(C.cstr(name), C.clist(content["tbl"], lambda tc: f"({C.cstr(tc[0])}, {C.cbytes(bytes(tc[1]))}, None)")))
+        elif isinstance(content, dict) and "tbl_text" in content:
+            # loaded by the model of script.Table's file reader (only texts that load are generated)
+            tbls.append(C.cpair(C.cstr(name), "(match A816.Model.TableFile.entries_of_text (A816.Model.TableFile.universal_newlines "
+                                              f"{C.cstr(content['tbl_text'])}) with Ok es => es | _ => [] end)"))
         elif isinstance(content, str):
             text.append(C.cpair(C.cstr(name), C.cstr(content)))
         else:
